@@ -33,6 +33,13 @@ CLAIMED["C01"] = {
   "technique": "Lean 4 inductive invariant over an N-thread step machine + lock-step model/implementation correspondence under a deterministic scheduler",
 }
 
+CLAIMED["C18"] = {
+  "text": "Machine-checked proofs on the N-thread half-lock step machine, for every reachable state of every interleaving: no deadlock (some thread is always enabled while any is unfinished), mutual exclusion of writers, readers (deliveries) are wait-free (every reader step is enabled regardless of other threads), quiescent completion (a writer anywhere inside write()/store() with both reader counters at zero returns alone within 8 own steps), and poisoning of the writer mutex never disables a step. Tied to /repo by lock-step differential execution of the real HalfLock under the deterministic scheduler (including destructors that panic under the writer mutex) against the model, with monitors for completion, the quiescent bound and non-wedging on the implementation trace.",
+  "design_ref": "DESIGN.md section 6 C18",
+  "note": "Trusted: as C01 (SC, shim completeness, scheduler). Termination is proved in the bounded-step / enabledness form above for finite workloads; with an infinite stream of overlapping deliveries a writer can spin by design and that liveness is not claimed. The iterator-level part (instance mutex of Signals: add_signal/Drop after a panic) is decided under C12.",
+  "technique": "Lean 4 invariants + bounded-progress lemmas over an N-thread step machine + lock-step correspondence under a deterministic scheduler",
+}
+
 NOT_YET = {}
 ALL = ["C%02d" % i for i in range(1, 19)]
 
